@@ -251,21 +251,40 @@ def _entry_to_branch(mod):
     return copied, reads, h.type.id, exc_name
 
 def _to_complex_shape(mod):
-    """is the degree conversion an in-place `z['phase'] *= …` on the parameter?"""
+    """how `to_complex(z, degree)` applies the degree option:
+         in place   `if degree: z['phase'] *= np.pi/180`                       -> True
+         locally    `<name> = z['phase']*np.pi/180 if degree else z['phase']`  -> False
+    Any other write to `z`, or no recognisable degree handling, is refused."""
     fn = _func(mod, 'to_complex')
     if fn is None or [a.arg for a in fn.args.args] != ['z', 'degree']:
         raise ExtractError(f'{LOADERS}: to_complex(z, degree) not found')
-    inplace = None
+    def is_z_phase(n):
+        return isinstance(n, ast.Subscript) and isinstance(n.value, ast.Name) and n.value.id == 'z' and _const_str(n.slice) == 'phase'
+    def writes_z(t):
+        return isinstance(t, (ast.Subscript, ast.Attribute)) and isinstance(t.value, ast.Name) and t.value.id == 'z'
+    inplace, local = False, False
     for node in ast.walk(fn):
         if isinstance(node, ast.If) and isinstance(node.test, ast.Name) and node.test.id == 'degree':
-            if len(node.body) == 1 and isinstance(node.body[0], ast.AugAssign) and isinstance(node.body[0].op, ast.Mult):
-                t = node.body[0].target
-                if isinstance(t, ast.Subscript) and isinstance(t.value, ast.Name) and t.value.id == 'z' and _const_str(t.slice) == 'phase':
-                    inplace = True
-                    continue
-            _fail(LOADERS, node, 'to_complex: degree branch outside the grammar (expected `z[\'phase\'] *= np.pi/180`)')
-    if inplace is None:
-        _fail(LOADERS, fn, 'to_complex: no `if degree:` branch found')
+            ok = (len(node.body) == 1 and not node.orelse and isinstance(node.body[0], ast.AugAssign)
+                  and isinstance(node.body[0].op, ast.Mult) and is_z_phase(node.body[0].target))
+            if not ok:
+                _fail(LOADERS, node, "to_complex: degree branch outside the grammar (expected `z['phase'] *= np.pi/180`)")
+            inplace = True
+        elif isinstance(node, ast.IfExp) and isinstance(node.test, ast.Name) and node.test.id == 'degree':
+            if not (is_z_phase(node.orelse) and any(is_z_phase(x) for x in ast.walk(node.body))):
+                _fail(LOADERS, node, "to_complex: conditional degree conversion outside the grammar")
+            local = True
+    for node in ast.walk(fn):
+        targets = node.targets if isinstance(node, ast.Assign) else [node.target] if isinstance(node, (ast.AugAssign, ast.AnnAssign)) else \
+                  node.targets if isinstance(node, ast.Delete) else []
+        for t in targets:
+            if writes_z(t) and not (inplace and isinstance(node, ast.AugAssign) and is_z_phase(t)):
+                _fail(LOADERS, node, 'to_complex: writes into its argument outside the grammar')
+        if isinstance(node, ast.Call) and isinstance(node.func, ast.Attribute) and isinstance(node.func.value, ast.Name) \
+                and node.func.value.id == 'z' and node.func.attr in MUTATORS:
+            _fail(LOADERS, node, 'to_complex: calls a mutating method on its argument')
+    if inplace == local:
+        _fail(LOADERS, fn, 'to_complex: the degree option is handled neither in place nor by a local conditional (or by both)')
     return inplace
 
 # ============================================================================ Circuit/dump_load.py, components.py
@@ -458,7 +477,7 @@ def gen_load_tables(src: Path) -> str:
     L.append(f'/-- `except {caught}: raise {raised}` in `load_network` -/')
     L.append(f'def loadCaught : String := {lean_str(caught)}')
     L.append(f'def loadRaised : String := {lean_str(raised)}')
-    L.append("/-- `if degree: z['phase'] *= np.pi/180` writes into the caller's dictionary -/")
+    L.append("/-- does the degree option write `z['phase'] *= np.pi/180` into the caller's dictionary (true) or use a local value (false)? -/")
     L.append(f'def degreeInPlace : Bool := {"true" if inplace else "false"}')
     L.append('')
     L.append('/-- `circuit_component_translators` (Circuit/dump_load.py): kind ↦ constructor -/')
@@ -690,6 +709,11 @@ class EffectAnalysis:
                       overrides={k.arg: k.value for k in call.keywords if k.arg})
             u.over_ctx = m
             u.partial_of = base.qname
+            for k in call.keywords:
+                if k.arg and isinstance(k.value, ast.Lambda):        # partial(f, cb=lambda …): the lambda is a unit of this module
+                    lu = _Unit(f'{m.name}.{name}[{k.arg}]', m.rel, k.value, kind='lambda')
+                    self._register(lu)
+                    k.value._unit = lu
             m.funcs[name] = u
             self.units[u.qname] = u
             # nested units of the specialised copy share the base's nested definitions
@@ -851,6 +875,8 @@ class EffectAnalysis:
         while v is not None:
             if name in v.all_params():
                 if name in v.overrides:
+                    if isinstance(v.overrides[name], ast.Lambda) and hasattr(v.overrides[name], '_unit'):
+                        return [('unit', v.overrides[name]._unit)], 'partial'
                     return self._resolve_name_expr(v.over_ctx, None, v.overrides[name]), 'partial'
                 if name in v.defaults:
                     return self._resolve_name_expr(self.mods[v.rel], v.parent, v.defaults[name]), 'default'
